@@ -333,6 +333,51 @@ def run_coro(c):
     raise RuntimeError("coroutine suspended on a scripted backend")
 
 
+_B = [None, 53, None, 0]
+EPS = {
+    # name: (module, function, number of required positional args, optional parameter names, their documented defaults)
+    "udp": ("query", "udp", 2, ["timeout", "port", "source", "source_port", "ignore_unexpected", "one_rr_per_rrset", "ignore_trailing",
+                               "raise_on_truncation", "sock", "ignore_errors"], _B + [False, False, False, False, None, False]),
+    "audp": ("asyncquery", "udp", 2, ["timeout", "port", "source", "source_port", "ignore_unexpected", "one_rr_per_rrset", "ignore_trailing",
+                                      "raise_on_truncation", "sock", "backend", "ignore_errors"], _B + [False, False, False, False, None, None, False]),
+    "recv": ("query", "receive_udp", 1, ["destination", "expiration", "ignore_unexpected", "one_rr_per_rrset", "keyring", "request_mac",
+                                         "ignore_trailing", "raise_on_truncation", "ignore_errors", "query"],
+             [None, None, False, False, None, b"", False, False, False, None]),
+    "arecv": ("asyncquery", "receive_udp", 1, ["destination", "expiration", "ignore_unexpected", "one_rr_per_rrset", "keyring", "request_mac",
+                                               "ignore_trailing", "raise_on_truncation", "ignore_errors", "query"],
+              [None, None, False, False, None, b"", False, False, False, None]),
+    "tcp": ("query", "tcp", 2, ["timeout", "port", "source", "source_port", "one_rr_per_rrset", "ignore_trailing", "sock"], _B + [False, False, None]),
+    "atcp": ("asyncquery", "tcp", 2, ["timeout", "port", "source", "source_port", "one_rr_per_rrset", "ignore_trailing", "sock", "backend"],
+             _B + [False, False, None, None]),
+    "recvtcp": ("query", "receive_tcp", 1, ["expiration", "one_rr_per_rrset", "keyring", "request_mac", "ignore_trailing"], [None, False, None, b"", False]),
+    "arecvtcp": ("asyncquery", "receive_tcp", 1, ["expiration", "one_rr_per_rrset", "keyring", "request_mac", "ignore_trailing", "ignore_errors"],
+                 [None, False, None, b"", False, False]),
+    "fallback": ("query", "udp_with_fallback", 2, ["timeout", "port", "source", "source_port", "ignore_unexpected", "one_rr_per_rrset",
+                                                   "ignore_trailing", "udp_sock", "tcp_sock", "ignore_errors"], _B + [False, False, False, None, None, False]),
+    "afallback": ("asyncquery", "udp_with_fallback", 2, ["timeout", "port", "source", "source_port", "ignore_unexpected", "one_rr_per_rrset",
+                                                         "ignore_trailing", "udp_sock", "tcp_sock", "backend", "ignore_errors"],
+                  _B + [False, False, False, None, None, None, False]),
+    "sendtcp": ("query", "send_tcp", 2, ["expiration"], [None]),
+    "asendtcp": ("asyncquery", "send_tcp", 2, ["expiration"], [None]),
+    "sendudp": ("query", "send_udp", 3, ["expiration"], [None]),
+    "asendudp": ("asyncquery", "send_udp", 3, ["expiration"], [None]),
+}
+
+
+def ep(name, style, *values):
+    """call an entry point either with every argument positional ("pos") or with the optional ones as keywords and those equal to the
+    documented default left out ("kw"): a changed default, or two parameters swapped in the signature, then shows"""
+    mod, fn, npos, names, defaults = EPS[name]
+    f = getattr(dns.query if mod == "query" else dns.asyncquery, fn)
+    assert len(values) == npos + len(names), (name, len(values))
+    if style != "kw":
+        r = f(*values)
+    else:
+        kw = {n: v for n, v, d in zip(names, values[npos:], defaults) if not (type(v) is type(d) and v == d)}
+        r = f(*values[:npos], **kw)
+    return run_coro(r) if mod == "asyncquery" else r
+
+
 def family_of(e: BaseException) -> str:
     if isinstance(e, ScriptExhausted):
         return "Exhausted"
@@ -699,25 +744,26 @@ def eval_udp(ctx: Ctx, c: dict):
     exp = None if c["timeout"] is None else c["now"] + c["timeout"]
     sockcls = AsyncUdpSock if is_async else UdpSock
     sock = sockcls(clock, c["af"], events, c.get("send_blocks", []))
+    style = c.get("style", "pos")
+    tmo = float(c["timeout"]) if (c.get("ftime") and c["timeout"] is not None) else c["timeout"]
     out = None
     with patched(clock):
         try:
             if api == "udp":
-                r = dns.query.udp(q, arg, c["timeout"], where["rest"][0], None, 0, o["iu"], o["one"], o["it"], o["rt"], sock, o["ie"])
+                r = ep("udp", style, q, arg, tmo, where["rest"][0], None, 0, o["iu"], o["one"], o["it"], o["rt"], sock, o["ie"])
                 out = ("ok", r, c["now"] + r.time)
             elif api == "audp":
-                r = run_coro(dns.asyncquery.udp(q, arg, c["timeout"], where["rest"][0], None, 0, o["iu"], o["one"], o["it"], o["rt"],
-                                                sock, None, o["ie"]))
+                r = ep("audp", style, q, arg, tmo, where["rest"][0], None, 0, o["iu"], o["one"], o["it"], o["rt"], sock, None, o["ie"])
                 out = ("ok", r, c["now"] + r.time)
             elif api == "recv":
-                t = dns.query.receive_udp(sock, None if dest is None else addr_tuple(dest), exp, o["iu"], o["one"], None, b"", o["it"], o["rt"],
-                                          o["ie"], q if query_given else None)
+                t = ep("recv", style, sock, None if dest is None else addr_tuple(dest), exp, o["iu"], o["one"], None, b"", o["it"], o["rt"],
+                       o["ie"], q if query_given else None)
                 out = ("ok", t[0], t[1])
                 if (dest is None) != (len(t) == 3):
                     ctx.fail("C18/receive_udp/return-shape", "tuple arity does not follow the destination argument", rep)
             elif api == "arecv":
-                t = run_coro(dns.asyncquery.receive_udp(sock, None if dest is None else addr_tuple(dest), exp, o["iu"], o["one"], None, b"",
-                                                        o["it"], o["rt"], o["ie"], q if query_given else None))
+                t = ep("arecv", style, sock, None if dest is None else addr_tuple(dest), exp, o["iu"], o["one"], None, b"",
+                       o["it"], o["rt"], o["ie"], q if query_given else None)
                 out = ("ok", t[0], t[1])
             else:
                 raise ValueError(api)
@@ -967,6 +1013,7 @@ def eval_stream(ctx: Ctx, c: dict):
     sev = c.get("sevents", [])
     rev = c.get("revents", [])
     is_async = k in ("arecvtcp", "atcp", "areadexactly", "asendtcp")
+    style = c.get("style", "pos")
     sock = (AsyncTcpSock if is_async else TcpSock)(clock, sev, rev)
     frames = c.get("frames", {})  # hex frame -> datagram description
     sums = {h: list(summarise(d)) if d.get("raw") is None else list(derive_summary(bytes.fromhex(h))) for h, d in frames.items()}
@@ -979,25 +1026,25 @@ def eval_stream(ctx: Ctx, c: dict):
             elif k == "areadexactly":
                 out = ("ok", run_coro(dns.asyncquery._read_exactly(sock, c["count"], exp)))
             elif k == "asendtcp":
-                nb, _t = run_coro(dns.asyncquery.send_tcp(sock, build_query(c["msg"]) if "msg" in c else bytes.fromhex(c["data"]), exp))
+                nb, _t = ep("asendtcp", style, sock, build_query(c["msg"]) if "msg" in c else bytes.fromhex(c["data"]), exp)
                 out = ("ok", nb)
             elif k == "netwrite":
                 dns.query._net_write(sock, bytes.fromhex(c["data"]), exp)
                 out = ("ok", None)
             elif k == "sendtcp":
-                nb, _t = dns.query.send_tcp(sock, build_query(c["msg"]) if "msg" in c else bytes.fromhex(c["data"]), exp)
+                nb, _t = ep("sendtcp", style, sock, build_query(c["msg"]) if "msg" in c else bytes.fromhex(c["data"]), exp)
                 out = ("ok", nb)
             elif k == "recvtcp":
-                out = ("ok", dns.query.receive_tcp(sock, exp, c["one"], None, b"", c["it"]))
+                out = ("ok", ep("recvtcp", style, sock, exp, c["one"], None, b"", c["it"]))
             elif k == "arecvtcp":
-                out = ("ok", run_coro(dns.asyncquery.receive_tcp(sock, exp, c["one"], None, b"", c["it"], c.get("ie", False))))
+                out = ("ok", ep("arecvtcp", style, sock, exp, c["one"], None, b"", c["it"], c.get("ie", False)))
             elif k == "tcp":
                 q = build_query(c["q"])
-                r = dns.query.tcp(q, "10.0.0.1", c["timeout"], 53, None, 0, c["one"], c["it"], sock)
+                r = ep("tcp", style, q, "10.0.0.1", c["timeout"], 53, None, 0, c["one"], c["it"], sock)
                 out = ("ok", (r, c["now"] + r.time))
             elif k == "atcp":
                 q = build_query(c["q"])
-                r = run_coro(dns.asyncquery.tcp(q, "10.0.0.1", c["timeout"], 53, None, 0, c["one"], c["it"], sock))
+                r = ep("atcp", style, q, "10.0.0.1", c["timeout"], 53, None, 0, c["one"], c["it"], sock, None)
                 out = ("ok", (r, c["now"] + r.time))
             else:
                 raise ValueError(k)
@@ -1230,10 +1277,10 @@ def eval_fallback(ctx: Ctx, c: dict):
         with patched(clock):
             try:
                 if fallback and not is_async:
-                    r = dns.query.udp_with_fallback(q, arg, c["timeout"], where["rest"][0], None, 0, o["iu"], o["one"], o["it"], us, ts, o["ie"])
+                    r = ep("fallback", c.get("style", "pos"), q, arg, c["timeout"], where["rest"][0], None, 0, o["iu"], o["one"], o["it"], us, ts, o["ie"])
                 elif fallback:
-                    r = run_coro(dns.asyncquery.udp_with_fallback(q, arg, c["timeout"], where["rest"][0], None, 0, o["iu"], o["one"], o["it"],
-                                                                  us, ts, None, o["ie"]))
+                    r = ep("afallback", c.get("style", "pos"), q, arg, c["timeout"], where["rest"][0], None, 0, o["iu"], o["one"], o["it"],
+                           us, ts, None, o["ie"])
                 elif not is_async:
                     r = dns.query.udp(q, arg, c["timeout"], where["rest"][0], None, 0, o["iu"], o["one"], o["it"], True, us, o["ie"])
                 else:
@@ -1334,9 +1381,9 @@ def eval_sendudp(ctx: Ctx, c: dict):
     with patched(clock):
         try:
             if is_async:
-                n, t = run_coro(dns.asyncquery.send_udp(sock, what, None if dest is None else addr_tuple(dest), exp))
+                n, t = ep("asendudp", c.get("style", "pos"), sock, what, None if dest is None else addr_tuple(dest), exp)
             else:
-                n, t = dns.query.send_udp(sock, what, None if dest is None else addr_tuple(dest), exp)
+                n, t = ep("sendudp", c.get("style", "pos"), sock, what, None if dest is None else addr_tuple(dest), exp)
                 sent = sock.sent
             out = ("ok", n)
         except BaseException as e:
